@@ -293,18 +293,35 @@ Definition sent_to (t : tuple) (ip : ip_repr) (r : tcp_repr) : Prop :=
 Definition tuple_nz (t : tuple) : Prop :=
   tu_local_addr t <> 0 /\ tu_remote_addr t <> 0 /\ tu_local_port t <> 0 /\ tu_remote_port t <> 0.
 
+Lemma accepts_of_sent_to_gen s t ip r :
+  s_state s <> Closed -> s_state s <> Listen -> s_tuple s = Some t -> tuple_nz t -> sent_to t ip r ->
+  ((ip_src ip =? 0) || (ip_dst ip =? 0)) = false /\
+  ((r_src_port r =? 0) || (r_dst_port r =? 0)) = false /\
+  tcp_accepts s ip r = true.
+Proof.
+  intros Hc Hl Htu (N1 & N2 & N3 & N4) (A1 & A2 & A3 & A4).
+  rewrite A1, A2, A3, A4.
+  split; [apply orb_false_iff; split; apply Z.eqb_neq; assumption|].
+  split; [apply orb_false_iff; split; apply Z.eqb_neq; assumption|].
+  unfold tcp_accepts. rewrite Htu, A1, A2, A3, A4, !Z.eqb_refl.
+  destruct (s_state s); try contradiction; reflexivity.
+Qed.
+
 Lemma accepts_of_sent_to s t ip r :
   s_state s = Established -> s_tuple s = Some t -> tuple_nz t -> sent_to t ip r ->
   ((ip_src ip =? 0) || (ip_dst ip =? 0)) = false /\
   ((r_src_port r =? 0) || (r_dst_port r =? 0)) = false /\
   tcp_accepts s ip r = true.
 Proof.
-  intros Hst Htu (N1 & N2 & N3 & N4) (A1 & A2 & A3 & A4).
-  rewrite A1, A2, A3, A4.
-  split; [apply orb_false_iff; split; apply Z.eqb_neq; assumption|].
-  split; [apply orb_false_iff; split; apply Z.eqb_neq; assumption|].
-  unfold tcp_accepts. rewrite Hst, Htu. cbn [tcp_state_eqb andb]. rewrite A1, A2, A3, A4, !Z.eqb_refl. reflexivity.
+  intros Hst. apply accepts_of_sent_to_gen; rewrite Hst; discriminate.
 Qed.
+
+Definition stf3 (s' s : socket) : Prop :=
+  s_state s' = s_state s /\ s_tuple s' = s_tuple s /\
+  (s_remote_last_ack s <> None -> s_remote_last_ack s' <> None).
+
+Lemma stf_stf3 s' s : stf s' s -> stf3 s' s.
+Proof. intros (A & B & C0 & _). split; [exact A|]. split; [exact B | exact C0]. Qed.
 
 Theorem est_event cx s ev s' out tags t :
   run_ev ev -> ev <> EvClose -> tcp_step cx s ev = Ok (s', out, tags) ->
@@ -315,10 +332,10 @@ Theorem est_event cx s ev s' out tags t :
   | EvSegment ip r => sent_to t ip r /\ r_control r <> CFin /\ r_control r <> CRst
   | _ => True
   end ->
-  stf s' s /\
+  stf3 s' s /\
   forall q, wire_out out = Some q ->
     sent_from t q /\ (r_control (snd q) = CNone \/ r_control (snd q) = CPsh) /\
-    r_ack_number (snd q) <> None /\
+    r_ack_number (snd q) = Some (tcp_window_start s') /\
     (rb_len (s_tx_buffer s) = 0 ->
      r_control (snd q) = CNone /\ r_payload (snd q) = [] /\ r_seq_number (snd q) = tcp_send_next_seq s').
 Proof.
@@ -326,24 +343,24 @@ Proof.
   destruct ev; try contradiction; cbn [tcp_step] in H.
   - (* send *)
     destruct (tcp_send_slice s data) as [(s1, n)|e|] eqn:E; [| |discriminate]; inversion H; subst.
-    + split; [exact (send_slice_stf _ _ _ _ E) | intros q Hq; discriminate].
-    + split; [apply stf_refl | intros q Hq; discriminate].
+    + split; [exact (stf_stf3 _ _ (send_slice_stf _ _ _ _ E)) | intros q Hq; discriminate].
+    + split; [apply stf_stf3, stf_refl | intros q Hq; discriminate].
   - (* recv *)
     destruct (tcp_recv_slice s n) as [(s1, b)|e|] eqn:E; [| |discriminate]; inversion H; subst.
-    + split; [exact (recv_slice_stf _ _ _ _ E) | intros q Hq; discriminate].
-    + split; [apply stf_refl | intros q Hq; discriminate].
+    + split; [exact (stf_stf3 _ _ (recv_slice_stf _ _ _ _ E)) | intros q Hq; discriminate].
+    + split; [apply stf_stf3, stf_refl | intros q Hq; discriminate].
   - (* a segment *)
     destruct Hseg as (Hto' & Hf & Hr).
     apply obind_ok in H. destruct H as (((s1 & rep) & tg) & Hi & H). inversion H; subst s1 out tags; clear H.
     destruct (accepts_of_sent_to _ _ _ _ Hst Htu Hnz Hto') as (A1 & A2 & A3).
     unfold iface_tcp_ingress in Hi. rewrite A1, A2, A3 in Hi.
-    split; [exact (process_est_keeps _ _ _ _ _ _ _ Hst Hf Hr Hi)|].
+    split; [exact (stf_stf3 _ _ (process_est_keeps _ _ _ _ _ _ _ Hst Hf Hr Hi))|].
     intros q Hq. cbn [wire_out] in Hq. destruct rep as [p|]; [|discriminate]. inversion Hq; subst p; clear Hq.
     pose proof (process_reply_shape _ _ _ _ _ _ _ Hi) as (Hrt & [(Hc & [X | X]) | (S1 & S2 & S3 & S4)]);
       try (rewrite Hst in X; discriminate).
     destruct Hrt as (R1 & R2 & R3 & R4). destruct Hto' as (T1 & T2 & T3 & T4).
     split; [unfold sent_from; rewrite R1, R2, R3, R4; auto|].
-    split; [left; exact S1|]. split; [rewrite S4; discriminate|]. intros _. auto.
+    split; [left; exact S1|]. split; [exact S4|]. intros _. auto.
   - (* dispatch *)
     apply obind_ok in H. destruct H as (((s1 & res) & tg) & Hd & H). inversion H; subst s1 out tags; clear H.
     destruct (dispatch_una_tx _ _ _ _ _ _ _ I Hst Hto Htu Haddr Hd) as (_ & _ & Hst' & _).
@@ -361,7 +378,11 @@ Proof.
     split; [unfold sent_from; auto|]. split; [exact D5|].
     destruct (dispatch_established _ _ _ _ _ _ _ Hst Htu Haddr Hd) as (Hack & _).
     destruct (Hack q (or_introl eq_refl)) as (Ha & _).
-    split; [rewrite Ha; discriminate|].
+    assert (Hws : tcp_window_start s' = tcp_window_start s).
+    { destruct (TcpRecvDispatch.dispatch_spec _ _ _ _ _ _ W1 W2 Hd) as [(Hres & _) | (_ & (_ & X2 & _ & X4 & _) & _)].
+      - unfold TcpRecvDispatch.dispatch_resets in Hres. rewrite Htu, Haddr, Z.eqb_refl in Hres. discriminate.
+      - unfold tcp_window_start. rewrite X2, X4. reflexivity. }
+    split; [rewrite Ha, Hws; reflexivity|].
     intros Hl. apply D6; [apply (li_tx _ I) | exact Hl].
 Qed.
 
@@ -482,36 +503,54 @@ Proof.
         destruct (ev_irs _ _ Vx) as (irs & _ & _ & Hws). unfold net_sock. rewrite Hws. apply seq_norm_sq.
 Qed.
 
-(* the events of the one-way workload: only x writes, nobody closes; losses are excluded by fairness *)
+(* the events of the one-way workload: only x writes, nobody closes (losses, duplicates and reordering
+   are the network's business and do not matter here) *)
 Definition script_ev (ev : net_event) : Prop :=
   match ev with
   | NClose _ => False
   | NSend z _ => z = x
-  | NDrop _ _ | NCorrupt _ _ => False
   | _ => True
   end.
 
+(* clocks, random numbers, losses: sockets and logs stay, channels do not grow *)
 Definition same_ctl (e' e : endpoint) : Prop :=
-  ep_sock e' = ep_sock e /\ ep_out e' = ep_out e /\ ep_written e' = ep_written e /\
+  ep_sock e' = ep_sock e /\ incl (ep_out e') (ep_out e) /\ ep_written e' = ep_written e /\
   ep_closed e' = ep_closed e /\ cx_addr (ep_cx e') = cx_addr (ep_cx e).
 
 Lemma reg_ext st st' : (forall z, same_ctl (net_get st' z) (net_get st z)) -> reg st -> reg st'.
 Proof.
   intros Hs HG.
   assert (Es : forall z, net_sock st' z = net_sock st z) by (intros z; apply (Hs z)).
-  assert (Ec : forall z, chan_to st' z = chan_to st z) by (intros z; unfold chan_to; apply (Hs _)).
+  assert (Ec : forall z p, In p (chan_to st' z) -> In p (chan_to st z)).
+  { intros z p. unfold chan_to. destruct (Hs (side_other z)) as (_ & Hi & _). apply Hi. }
   constructor.
   - intros z. rewrite Es. apply (rg_est st HG).
   - intros z. destruct (Hs z) as (_ & _ & _ & -> & _). apply (rg_closed st HG).
   - destruct (Hs y) as (_ & _ & -> & _). apply (rg_ywr st HG).
   - intros z. destruct (rg_tup st HG z) as (t & T1 & T2 & T3 & T4). exists t. unfold tup_ok.
     rewrite !Es. destruct (Hs z) as (_ & _ & _ & _ & ->). auto.
-  - intros z p t. rewrite Ec, Es. apply (rg_chan st HG).
-  - intros p. rewrite Ec. apply (rg_xchan st HG).
-  - intros q. rewrite Ec, Es. apply (rg_ychan st HG).
+  - intros z p t Hin. rewrite Es. apply (rg_chan st HG). exact (Ec _ _ Hin).
+  - intros p Hin. apply (rg_xchan st HG). exact (Ec _ _ Hin).
+  - intros q Hin. rewrite Es. apply (rg_ychan st HG). exact (Ec _ _ Hin).
   - rewrite Es. apply (rg_last st HG).
   - intros z. rewrite Es. apply (rg_noka st HG).
   - rewrite Es. apply (rg_delay st HG).
+Qed.
+
+Lemma same_ctl_refl e : same_ctl e e.
+Proof. unfold same_ctl. repeat split; try reflexivity. apply incl_refl. Qed.
+
+(* a loss *)
+Lemma drop_same st to i st' :
+  (net_step st (NDrop to i) = Ok st' \/ net_step st (NCorrupt to i) = Ok st') ->
+  forall z, same_ctl (net_get st' z) (net_get st z).
+Proof.
+  intros H z. assert (E : st' = net_set st (side_other to)
+                           (ep_set_out (net_get st (side_other to)) (remove_nth i (ep_out (net_get st (side_other to)))))).
+  { destruct H as [H | H]; cbn [net_step] in H; inversion H; reflexivity. }
+  subst st'. destruct (side_cases (side_other to) z) as [-> | ->].
+  - rewrite net_get_set_same. unfold same_ctl, ep_set_out. cbn. repeat split; try reflexivity. apply remove_nth_incl.
+  - rewrite net_get_set_other. apply same_ctl_refl.
 Qed.
 
 Lemma sent_to_parse t p : sent_to t (fst p) (snd p) -> sent_to t (fst p) (wire_parse (snd p)).
@@ -530,11 +569,11 @@ Proof.
   intros HN Ho HG HI HI' Hsc H.
   destruct (net_step_kind _ _ _ H) as [w ev0 e' Hse He -> | to i -> _ -> | d -> -> | w isn ts -> -> | to i Hd].
   2:{ exact HG. }
-  2:{ apply (reg_ext st); [|exact HG]. intros z. destruct z; cbn; repeat split. }
+  2:{ apply (reg_ext st); [|exact HG]. intros z. destruct z; cbn; repeat split; try reflexivity; apply incl_refl. }
   2:{ apply (reg_ext st); [|exact HG]. intros z.
       destruct (side_cases w z) as [-> | ->]; [rewrite net_get_set_same | rewrite net_get_set_other];
-        cbn; repeat split. }
-  2:{ destruct Hd as [-> | ->]; contradiction. }
+        cbn; repeat split; try reflexivity; apply incl_refl. }
+  2:{ apply (reg_ext st); [|exact HG]. apply (drop_same st to i). destruct Hd as [-> | ->]; [left | right]; exact H. }
   (* a socket event at endpoint w *)
   destruct (reg_pair st HG HI) as (gx & gy & PF & Hsub).
   pose proof (pf_vx _ _ _ _ PF) as Vx. pose proof (pf_vy _ _ _ _ PF) as Vy.
@@ -633,7 +672,7 @@ Proof.
     apply in_app_or in Hin. destruct Hin as [Hin | Hin]; [exact (rg_xchan st HG p Hin)|].
     destruct (wire_out out) as [q|] eqn:Eq; [|contradiction]. destruct Hin as [<- | []].
     destruct (Hem q eq_refl) as (_ & F2 & F3 & _). right.
-    split; [destruct F2 as [-> | ->]; discriminate | exact F3].
+    split; [destruct F2 as [-> | ->]; discriminate | rewrite F3; discriminate].
   - intros q Hin. rewrite Hwsx. rewrite Hchan in Hin.
     destruct (side_eqb x (side_other w)) eqn:Ez; [|exact (rg_ychan st HG q Hin)].
     apply in_app_or in Hin. destruct Hin as [Hin | Hin]; [exact (rg_ychan st HG q Hin)|].
@@ -718,7 +757,9 @@ Proof.
   - apply Hcl.
   - destruct z; [exact (Hcl SA) | exact (Hcl SB)].
   - destruct (side_cases w z) as [-> | ->]; [rewrite net_get_set_same | rewrite net_get_set_other]; apply Hcl.
-  - destruct Hd as [-> | ->]; contradiction.
+  - assert (Hd' : net_step st (NDrop to i) = Ok st' \/ net_step st (NCorrupt to i) = Ok st')
+      by (destruct Hd as [-> | ->]; [left | right]; exact H).
+    destruct (drop_same st to i st' Hd' z) as (_ & _ & _ & -> & _). apply Hcl.
 Qed.
 
 (* THE DISCHARGE.  From a state reached from net_init in which the regime invariant holds (both
